@@ -219,6 +219,14 @@ def p_rules(p: Project, rep: Report):
         raises = [q for q in spaths if q.outcome == "raise" and PT3.simple_conds(q.conds).get(f"bool({flag})") is True]
         ok = ok and bool(raises)
     rep.check("P-R3", "TreeBuilder.start:refuses-second-root", ok, "a second top-level element after the root was closed is accepted" if not ok else "", ploc(p, st or ci.node))
+    if st is not None and flag is not None:
+        # ... and refuses nothing else: a start tag is an error only after the root has been closed.  Any other raise in
+        # start() (a depth limit, a tag blacklist) rejects a well-formed body
+        other = None
+        for q in spaths:
+            if q.outcome == "raise" and PT3.simple_conds(q.conds).get(f"bool({flag})") is not True:
+                other = PT3.simple_conds(q.conds)
+        rep.check("P-R3", "TreeBuilder.start:refuses-only-a-second-root", other is None, f"start() also raises when {dict(list(other.items())[:3]) if other else ''} although the root element is still open: a well-formed body that meets this condition (e.g. nesting beyond a fixed depth) is rejected in every rendering" if other is not None else "", ploc(p, st))
     if flag is not None:
         if flag_set_ok is None:
             rep.note(f"P-R3 undecided: how end() sets {flag} is not recognised")
